@@ -177,3 +177,54 @@ def random_case(rng, name, types=None, length=(15, 45), tags=("random",)):
     for p in sorted(pipes):
         sc.add(f"wire {p}", f"halves {p}")
     return sc.case(name, list(tags))
+
+
+# --------------------------------------------------------------------------- symbolic frames
+# a frame is either bytes (literal) or ("gen", length, seed): contents produced from (len, seed) on
+# both sides, so that large bodies never travel as hex
+
+
+def ftok(f):
+    if isinstance(f, tuple):
+        return f"@{f[1]}:{f[2]}" if f[1] > 0 else "."
+    return hx(f)
+
+
+def flen(f):
+    return f[1] if isinstance(f, tuple) else len(f)
+
+
+def mtok(frames):
+    """message token for `send`"""
+    return ",".join(ftok(f) for f in frames)
+
+
+def wire_tok(frames):
+    """byte token (for `reveal`) of the ZMTP encoding of a message whose frames may be symbolic"""
+    parts = []
+    for i, f in enumerate(frames):
+        more = i != len(frames) - 1
+        n = flen(f)
+        if n > 255:
+            hdr = bytes([3 if more else 2]) + n.to_bytes(8, "big")
+        else:
+            hdr = bytes([1 if more else 0, n])
+        parts.append(hdr.hex())
+        if n > 0:
+            parts.append(ftok(f))
+    return "+".join(parts)
+
+
+def show_frames(frames):
+    """canonical text of a message as both engines print it"""
+    from vlib import gen
+
+    return ",".join(gen.show_bytes_tok(ftok(f)) for f in frames)
+
+
+def show_wire(frames_list):
+    """canonical text of the wire bytes of a sequence of messages"""
+    from vlib import gen
+
+    tok = "+".join(wire_tok(fr) for fr in frames_list)
+    return gen.show_bytes_tok(tok) if tok else "."
